@@ -123,6 +123,11 @@ def gen(n):
         i += 1
 '''
 
+# a chain of distinct functions nested CHAIN deep (many openings pending on one thread at the same time)
+CHAIN = 80
+TEMPLATE += ''.join('\n\ndef chain_%d(s):\n    return chain_%d(s) + 1\n' % (k, k + 1) for k in range(CHAIN - 1))
+TEMPLATE += '\n\ndef chain_%d(s):\n    return len(s)\n' % (CHAIN - 1)
+
 
 class Host:
     def __init__(self, workdir, tag):
